@@ -231,6 +231,23 @@ pub fn eval(case: &Case) -> (Vec<Violation>, bool, Option<String>) {
     if !run.ok() {
         return (vec![], false, None);
     }
+    // listener identifiers must be legal whatever else is wrong with the file (a parse failure of
+    // events.ts as a whole is C01's business, an illegal listener name is named by this property)
+    if let Some(src) = run.file("events.ts") {
+        for line in src.lines() {
+            if let Some(rest) = line.trim_start().strip_prefix("export async function ").or_else(|| line.trim_start().strip_prefix("export function ")) {
+                let name: String = rest.chars().take_while(|c| *c != '(' && *c != '<' && !c.is_whitespace()).collect();
+                let mut cs = name.chars();
+                let legal = match cs.next() {
+                    Some(c) => (c == '_' || c == '$' || unicode_ident::is_xid_start(c)) && cs.all(|c| c == '$' || c == '\u{200c}' || c == '\u{200d}' || unicode_ident::is_xid_continue(c)),
+                    None => false,
+                };
+                if !legal {
+                    return (vec![mk(case, "illegal-listener-identifier", format!("events.ts declares a listener named `{}`, which is not a legal identifier", name))], true, None);
+                }
+            }
+        }
+    }
     let (listeners, dups, reexported) = match observe(&run.files) {
         Ok(x) => x,
         Err(e) if e.starts_with("SYNTAX") => return (vec![], true, Some(e)),
